@@ -167,6 +167,25 @@ func (c *c07) trial(r *core.R, kind string, coder rsec16.Coder, d, p, g int, dat
 			r.Count("singular_systems", 1)
 		}
 	}
+	// Every third trial hands over a parity slice that is SHORTER than the
+	// coder's parity count (it ends after the last available shard) and is a
+	// prefix of a longer array whose tail still holds shards: what lies behind
+	// len() is not there.
+	if l > 0 && (len(missing)+len(availPar)+d)%3 == 0 {
+		k := 0
+		for _, a := range availPar {
+			if a+1 > k {
+				k = a + 1
+			}
+		}
+		full := make([][]byte, p)
+		copy(full, par)
+		for a := k; a < p; a++ {
+			full[a] = append(make([]byte, 0, l), parity[a]...) // stale, behind len
+		}
+		par = full[:k]
+		r.Count("short_parity_slices", 1)
+	}
 	var err error
 	if pi := core.Protect(func() { err = coder.ReconstructData(in, par) }); pi != nil {
 		r.Violate("reconstruct-panic|"+pi.Frame, "%s d=%d p=%d g=%d len=%d missing=%v availParity=%v: panic %s", kind, d, p, g, l, missing, availPar, pi.Msg)
